@@ -58,10 +58,13 @@ def run(ctx):
     def callees(f):
         return {g.qualname: g for cs in f.calls for g in cs.callees if cs.cls is None}
 
-    common = set(callees(lo_molden)) & set(callees(lo_molekel))
-    common = [q for q in common if any(isinstance(s, ast.Raise) for s in walk_stmts(prog.funcs[q].body))]
+    def is_cascade(g):
+        """Takes the result dict first, raises LoadError at its end, calls a predicate in several if-tests."""
+        return bool(g.body) and isinstance(g.body[-1], ast.Raise) and sum(1 for s in walk_stmts(g.body) if isinstance(s, ast.If)) >= 5
+
+    common = sorted(q for q in (set(callees(lo_molden)) | set(callees(lo_molekel))) if is_cascade(prog.funcs[q]))
     if len(common) != 1:
-        raise AnalysisError(f"cannot identify the fix-up cascade shared by the Molden and Molekel loaders (candidates: {common})")
+        raise AnalysisError(f"cannot identify the fix-up cascade of the Molden / Molekel loaders (candidates: {common})")
     casc = prog.funcs[common[0]]
 
     # ------------------------------------------------------------------ R1
